@@ -71,6 +71,42 @@ theorem at_most_one_in_flight (cfg : Cfg) (ops : List Op) :
   rw [h.active]
   split <;> simp
 
+/-- generation order at the store: for every op sequence and flush timing, as long as no flush has failed, the store
+    tier holds for every key the value of the NEWEST generation that has been flushed and contains the key (`hist` is
+    newest first and its generations are 1,2,3,… by `generations_strict`; the generation whose flush function is still
+    running is not counted).  Since commit turns the locks of the store tier into records with the lock's value
+    (`resolve_outcome_is_primarys`), a key's newest flushed generation is the one that is committed. -/
+theorem store_holds_newest_generation (cfg : Cfg) (ops : List Op) (k : Bytes)
+    (hnf : (run (init cfg) ops).failed = false) (hne : (run (init cfg) ops).errCh ≠ some .err) :
+    (run (init cfg) ops).store.get k = newestFlushed (run (init cfg) ops) k := by
+  have h := inv4_run (sp := {}) ops (inv4_init cfg) (inv2_init cfg)
+  rw [runBoth_fst] at h
+  exact h.newest hnf hne k
+
+/-- at commit time (after `Flush(true)`; `FlushWait()` returned nil: nothing in flight, no failure) that is the newest
+    generation of the whole transaction holding the key -/
+theorem store_holds_newest_generation_at_commit (cfg : Cfg) (ops : List Op) (k : Bytes)
+    (hnf : (run (init cfg) ops).failed = false) (hfl : (run (init cfg) ops).flushing = none) :
+    (run (init cfg) ops).store.get k = ((run (init cfg) ops).hist.map (·.2)).findSome? (·.get k) := by
+  have h2 := inv2_run (sp := {}) ops (inv2_init cfg)
+  rw [runBoth_fst] at h2
+  have hr : (run (init cfg) ops).running = false := by
+    cases hr : (run (init cfg) ops).running with
+    | false => rfl
+    | true => have := h2.runFl hr; rw [hfl] at this; cases this
+  have hne : (run (init cfg) ops).errCh ≠ some .err := by
+    intro he
+    have := (h2.errFl (by rw [he]; rfl)).1
+    rw [hfl] at this; cases this
+  rw [store_holds_newest_generation cfg ops k hnf hne]
+  unfold newestFlushed
+  simp [hr]
+
+example : (run (init {}) [.set [1] [2], .flush true 0 { res := .ok, applied := 0 }, .set [1] [3],
+      .flush true 0 { res := .ok, applied := 0 }, .flushWait { res := .ok, applied := 0 }]).store.get [1] = some [3] ∧
+    (run (init {}) [.set [1] [2], .flush true 0 { res := .ok, applied := 0 }, .set [1] [3],
+      .flush true 0 { res := .ok, applied := 0 }, .flushWait { res := .ok, applied := 0 }]).flushing = none := by decide
+
 /-! ## flush errors -/
 
 /-- a flush error is never lost: while the failure of a flush function has not been returned to the caller, Commit
